@@ -24,8 +24,6 @@ package main
 // through root and child stores.
 
 import (
-	"strings"
-
 	"github.com/openziti/storage/boltz"
 )
 
@@ -274,34 +272,5 @@ func c04ApiScenarios() []c04ApiScenario {
 
 // exhaustApiC04: per scenario every sequence of 1..maxLen of its operations, one per transaction, after the prefix
 func exhaustApiC04(maxLen int, stats map[string]int) []string {
-	var lines []string
-	for _, sc := range c04ApiScenarios() {
-		w := wiringByName(sc.wiring)
-		w.derive()
-		var head strings.Builder
-		head.WriteString(w.text())
-		if len(sc.prefix) > 0 {
-			head.WriteString(" ")
-			head.WriteString(w.txText(&hTx{Ops: sc.prefix}))
-		}
-		txt := make([]string, len(sc.ops))
-		for i := range sc.ops {
-			txt[i] = " " + w.txText(&hTx{Ops: []hOp{sc.ops[i]}})
-		}
-		var rec func(prefix string, depth int)
-		rec = func(prefix string, depth int) {
-			if depth > 0 {
-				lines = append(lines, prefix)
-				stats["exhaustive_api"]++
-			}
-			if depth == maxLen {
-				return
-			}
-			for i := range txt {
-				rec(prefix+txt[i], depth+1)
-			}
-		}
-		rec(head.String(), 0)
-	}
-	return lines
+	return c04ExhaustScenarios(c04ApiScenarios(), maxLen, "exhaustive_api", stats)
 }
